@@ -122,6 +122,28 @@ impl GraphSpecs {
         !r.directed, !r.multi_edges, !r.self_loops, r.missing_node_strategy == MissingNodeStrategy::Error,
         r.edge_dedupe_strategy == EdgeDedupeStrategy::Error, r.self_loops_false_strategy == SelfLoopsFalseStrategy::Error,
 //@ end
+//@ extract fn src/graph_specs.rs multi_directed ty=GraphSpecs props=C16,C20
+//@ rewrite
+-> GraphSpecs
+//@ with
+-> (r: GraphSpecs)
+//@ spec
+    ensures
+        // [C16.specs.multi_directed]
+        r.directed, r.multi_edges, r.self_loops, r.missing_node_strategy == MissingNodeStrategy::Error,
+        r.edge_dedupe_strategy == EdgeDedupeStrategy::Error, r.self_loops_false_strategy == SelfLoopsFalseStrategy::Error,
+//@ end
+//@ extract fn src/graph_specs.rs multi_undirected ty=GraphSpecs props=C16,C20
+//@ rewrite
+-> GraphSpecs
+//@ with
+-> (r: GraphSpecs)
+//@ spec
+    ensures
+        // [C16.specs.multi_undirected]
+        !r.directed, r.multi_edges, r.self_loops, r.missing_node_strategy == MissingNodeStrategy::Error,
+        r.edge_dedupe_strategy == EdgeDedupeStrategy::Error, r.self_loops_false_strategy == SelfLoopsFalseStrategy::Error,
+//@ end
 }
 
 //@ extract fn src/generators/random.rs fast_gnp_random_graph_undirected props=C16,C20
